@@ -410,9 +410,15 @@ def exDom : Dom :=
   let (d, c) := d.createComment "m"
   d.insertNode root c none
 
+def treesAre (o : Option (List Tree)) (ts : List Tree) : Bool :=
+  match o with
+  | some x => Tree.beqList x ts
+  | none => false
+
 example : exDom.kidsOf 0 = [1, 2] ∧ exDom.next = 3 ∧ exDom.isElement 0 = true ∧
     exDom.getParent 2 = some 0 ∧
-    serListN 1 exDom [1] = some [Tree.text "x"] ∧ serListN 1 exDom [2] = some [Tree.comment "m"] ∧
+    treesAre (serListN 1 exDom [1]) [Tree.text "x"] = true ∧
+    treesAre (serListN 1 exDom [2]) [Tree.comment "m"] = true ∧
     subIds 1 exDom 1 = [1] ∧ subIds 1 exDom 2 = [2] := by decide
 
 /-- and the conclusion computed on that DOM: build + mount, rebuild, unmount -/
@@ -420,8 +426,8 @@ example :
     let r := build exA exDom
     let d1 := mount r.2 r.1 0 (some 2)
     let r2 := rebuild false exB r.2 d1
-    serializeKids d1 0 = some ([Tree.text "x"] ++ render exA ++ [Tree.comment "m"]) ∧
-    serializeKids r2.1 0 = some ([Tree.text "x"] ++ render exB ++ [Tree.comment "m"]) ∧
+    treesAre (serializeKids d1 0) ([Tree.text "x"] ++ render exA ++ [Tree.comment "m"]) = true ∧
+    treesAre (serializeKids r2.1 0) ([Tree.text "x"] ++ render exB ++ [Tree.comment "m"]) = true ∧
     (unmount r2.2 r2.1).kidsOf 0 = [1, 2] := by decide
 
 end Leptos.View
